@@ -250,7 +250,7 @@ func saveESDTNFTToken(
 		return nil, err
 	}
 
-	if esdtData.Value.Cmp(zero) <= 0 {
+	if esdtData.Value.Cmp(zero) <= 0 && (esdtData.TokenMetaData != nil || arePropertiesEmpty(esdtData.Properties)) {
 		return nil, acnt.AccountDataHandler().SaveKeyValue(esdtNFTTokenKey, nil)
 	}
 
